@@ -4,7 +4,7 @@
    toks? = [] when get_lexer_by_name raises ClassNotFound, else [[tok, tok, ...]]: the token texts
    the Pygments lexer (built with the call-site options of the tree under test) produced for the
    tab-expanded code -- the lexer is an oracle, its output is an input of the model. *)
-From RichModel Require Import Prelude Cells Syntax SpecSyntax.
+From RichModel Require Import Prelude Cells Syntax SpecSyntax SyntaxWrap.
 
 Definition tRange (t : tree) : option (Z * Z) :=
   match tL t with a :: b :: _ => Some (tZ a, tZ b) | _ => None end.
@@ -24,7 +24,7 @@ Definition spec_op (f : opts -> str -> Z -> list str -> bool) (t : tree) : tree 
 
 Definition ops : list (string * (tree -> tree)) := [
   ("render", fun t =>
-      ofLinesR (render (tLex (tNth t 1)) current_facts wrap_fit (tOpts t) (tStr (tNth t 0)) (tW t)));
+      ofLinesR (render (tLex (tNth t 1)) current_facts wrapf_text (tOpts t) (tStr (tNth t 0)) (tW t)));
   (* [code, toks?, range?] -> plain text of Syntax.highlight(code, range) *)
   ("highlight", fun t =>
       ofRes ofStr (highlight (tLex (tNth t 1)) current_facts (tFound (tNth t 1)) (tStr (tNth t 0)) (tRange (tNth t 2))));
@@ -32,13 +32,14 @@ Definition ops : list (string * (tree -> tree)) := [
   ("tbframe", fun t =>   (* the panel (width W, border and padding 2+2) crops the block on the right *)
       let av := tZ (tNth t 7) - 4 in
       L [tNth t 2;
-         match render_frame (tLex (tNth t 1)) current_facts wrap_fit (tStr (tNth t 0)) (tZ (tNth t 2))
+         match render_frame (tLex (tNth t 1)) current_facts wrapf_text (tStr (tNth t 0)) (tZ (tNth t 2))
                      (tZ (tNth t 3)) (tB (tNth t 4)) (tB (tNth t 5)) (tB (tNth t 6)) (tZ (tNth t 7)) with
          | Ok ls => ofList ofStr (map (fun l => rstrip_sp (if av <? cell_len l then set_cell_size l av else l)) ls)
          | _ => I (-1)
          end]);
   ("show_Z", fun t => ofStr (show_Z (tZ t)));
   ("expandtabs", fun t => ofStr (expandtabs (tZ (tNth t 0)) (tStr (tNth t 1))));
+  ("wrapf_text", fun t => ofList ofStr (map rstrip_sp (wrapf_text (tStr (tNth t 0)) (tZ (tNth t 1)) (tB (tNth t 2)))));
   ("wrap_fit", fun t => ofList ofStr (map rstrip_sp (wrap_fit (tStr (tNth t 0)) (tZ (tNth t 1)) (tB (tNth t 2)))));
   ("lex_norm", fun t => ofStr (lex_norm (mkLexopts (tB (tNth t 0)) (tB (tNth t 1))) (tStr (tNth t 2))));
   (* spec-level checkers on the implementation's output: render argument ++ [out] *)
